@@ -250,6 +250,11 @@ def c01_catalogue(quick):
     css = [U(1, links=[dict(to=2, css=1, inline=1), 6]), U(2, kind='css', path='/s/a.css', links=[dict(to=3, imp=1), dict(to=4)]),
            U(3, kind='css', path='/s/b.css', links=[dict(to=5)]), U(4, path='/s/i4.png'), U(5, path='/s/i5.png'), U(6)]
     out.append(scenario('css-import-chain', css, dict(pagereq=1), N=1))
+    # ... written in capitals (CSS keywords, function names and the values of rel are not case-sensitive)
+    cssu = [U(1, links=[dict(to=2, css=1, inline=1, upper=1), 6]),
+            U(2, kind='css', path='/s/a.css', links=[dict(to=3, imp=1, upper=1), dict(to=4, upper=1)]),
+            U(3, kind='css', path='/s/b.css', links=[dict(to=5, upper=1)]), U(4, path='/s/i4.png'), U(5, path='/s/i5.png'), U(6)]
+    out.append(scenario('css-import-chain-in-capitals', cssu, dict(pagereq=1), N=1))
     # a URL met first through a link that is too deep and later (sequentially) as a requisite of a shallower page
     req = [U(1, links=[2, 3]), U(2, links=[4]), U(3, links=[dict(to=4, inline=1), 5]), U(4), U(5, links=[dict(to=6, inline=1)]), U(6)]
     out.append(scenario('too-deep-link-then-requisite', req, dict(level=1, pagereq=1), N=1))
